@@ -37,7 +37,7 @@ PINS = [(_DEX, "determineNext"), (_DEX, "determineException"), (_DEX, "DCode.get
         (_ANA, "MethodAnalysis._create_basic_block"), (_ANA, "DEXBasicBlock.push"),
         (_ANA, "DEXBasicBlock.set_childs"), (_ANA, "DEXBasicBlock.set_fathers"),
         (_ANA, "BasicBlocks.get_basic_block"), (_ANA, "Exceptions.get_exception"), (_ANA, "Exceptions.add"),
-        (_ANA, "ExceptionAnalysis.__init__")]
+        (_ANA, "ExceptionAnalysis.__init__"), (_DEX, "DCode.set_insn"), (_DEX, "EncodedMethod.reload")]
 CMD = {"C10": "c10", "C11": "c11", "C12": "c12", "C40": "c40"}
 GEN_CLASS = "LGen;"
 EXT_CLASS = "Lext/E;"
@@ -443,7 +443,21 @@ def gen_spec(rng):
     return {"items": items, "tries": tries}
 
 
-def build_dex(specs, shared_handlers=False, leb_pad=0):
+def share_code_item(data: bytes, owner: str, sibling: str):
+    """patch the class_data_item so that method `sibling` has the code_off of method `owner` (two
+    encoded_methods sharing one code item: legal, what code-item deduplication produces).  Returns the
+    new file or None when the bytes cannot be patched in place."""
+    from androguard.core import dex
+    d0 = dex.DEX(data)
+    off = {m.get_name(): m.get_code_off() for m in d0.get_encoded_methods()}
+    old = b"\x09" + A.uleb128(off[sibling])                   # access_flags 0x9, code_off
+    if data.count(old) != 1 or len(A.uleb128(off[owner])) > len(old) - 1:
+        return None
+    new = b"\x09" + A.uleb128(off[owner], len(old) - 1)
+    return A.fix_checksum(data.replace(old, new))
+
+
+def build_dex(specs, shared_handlers=False, leb_pad=0, sibling_of=None):
     """leb_pad > 0: every LEB128 of the class data, the encoded_catch_handler lists (list size, handler
     size, type_idx, addr, catch_all_addr) and the string sizes is written with that many extra bytes —
     legal, non-minimal encodings, so offsets recomputed from re-encoded lengths would drift"""
@@ -454,8 +468,12 @@ def build_dex(specs, shared_handlers=False, leb_pad=0):
         methods.append(A.Method(f"m{k}", "V", (), 0x9, A.Code(
             8, 0, 2, asm_items(sp["items"]),
             tries=[A.Try(t[0], t[1], [(h[0], h[1]) for h in t[2]], t[3]) for t in sp["tries"]])))
+    if sibling_of is not None:
+        methods.append(A.Method("sib", "V", (), 0x9, A.Code(8, 0, 2, [("nop",), ("nop",), ("return-void",)])))
     b.add_class(GEN_CLASS, static_fields=[A.Field("X", "I", 0x9)], direct_methods=methods)
     data = b.build(shared_handlers=shared_handlers, leb_pad=leb_pad)
+    if sibling_of is not None:
+        data = share_code_item(data, f"m{sibling_of}", "sib") or data
     return data, b
 
 
@@ -501,6 +519,14 @@ def make_long(sp, rng):
     return {"items": items, "tries": tries}
 
 
+# public routes by which the instruction list of a method's code item can be replaced
+#   em       EncodedMethod.set_instructions(new)                   (the owning method)
+#   dcode    method.get_code().get_bc().set_instructions(new)      (DCode directly; DalvikCode has no setter)
+#   sib      sibling.set_instructions(new)                         (another encoded_method sharing the code item)
+#   insn     DCode.set_insn(bytes) + DCode.set_instructions(None)  (new raw buffer, cache dropped -> re-disassembled)
+ROUTES = ("em", "dcode", "sib", "insn", "dcode", "sib")
+
+
 def gen_history(rng, long=False):
     """three method bodies (A, B, A with other payload targets) and a sequence of edits of one of them:
     step = [source body 0..2, number of nops prepended, direct lookups before the edit (bool)]"""
@@ -520,10 +546,11 @@ def gen_history(rng, long=False):
     target = rng.choice((0, 0, 1, 2))
     steps = []
     for _ in range(rng.choice((1, 2, 2, 3, 4))):
-        steps.append([rng.randrange(3), rng.choice((0, 0, 2, 2, 4, 1)), rng.random() < 0.3])
+        steps.append([rng.randrange(3), rng.choice((0, 0, 2, 2, 4, 1)), rng.random() < 0.3, rng.choice(ROUTES)])
     if rng.random() < 0.5:
-        steps.append([target, 0, False])                       # and back to the original body
-    return {"specs": specs, "target": target, "steps": steps, "shared_handlers": rng.random() < 0.5}
+        steps.append([target, 0, False, rng.choice(ROUTES)])   # and back to the original body
+    return {"specs": specs, "target": target, "steps": steps, "shared_handlers": rng.random() < 0.5,
+            "sibling": True}
 
 
 def spec_tries(sp):
@@ -578,6 +605,14 @@ class Run:
         view = real_view(dx, m, insns, xidx, ma)
         self.reqs.append(f"{self.cmd} {args}")
         self.real.append(canon(view, self.prop))
+        if self.prop == "C40":
+            pairs, o, want = list(m.get_instructions_idx()), 0, []
+            for i in insns:
+                want.append((o, id(i)))
+                o += i.get_length()
+            if [(a, id(b)) for a, b in pairs] != want:
+                ck.fail(case, "get_instructions_idx does not yield the running offsets of the current instruction list",
+                        None, [a for a, _ in want][:40], [a for a, _ in pairs][:40])
         self.post.append(d)
         F = O.Facts(code_bytes, tries)
         D = self.dist
@@ -616,23 +651,43 @@ class Run:
         """analysis -> set_instructions -> fresh MethodAnalysis … on ONE EncodedMethod"""
         from androguard.core import dex
         from androguard.core.analysis import analysis
-        data, b = build_dex(h["specs"], h["shared_handlers"])
-        d, dx = load_dex(data)                                   # first analysis of every method
+        data, b = build_dex(h["specs"], h["shared_handlers"], sibling_of=h["target"] if h.get("sibling") else None)
+        d, dx = load_dex(data)                                   # first analysis of every method (+ xrefs)
         fkeys = field_keys(d)
         by_name = {m.get_name(): m for m in d.get_encoded_methods()}
         m = by_name[f"m{h['target']}"]
+        sib = by_name.get("sib")
+        if sib is not None and sib.get_code_off() != m.get_code_off():
+            sib = None
+        self.dist["histories_shared_code_item"] = self.dist.get("histories_shared_code_item", 0) + (sib is not None)
         bc = m.get_code().get_bc()
         tries = spec_tries(h["specs"][h["target"]])              # the code item keeps its own try table
-        for k, (src, nops, poke) in enumerate(h["steps"]):
+        for k, st in enumerate(h["steps"]):
+            src, nops, poke = st[:3]
+            route = st[3] if len(st) > 3 else "em"
             if upto is not None and k > upto:
                 break
-            if poke:
-                bc.get_ins_off(0), bc.off_to_pos(0), bc.get_ins_off(2)
+            if poke:                                             # lookups and mutators that change nothing
+                bc.get_ins_off(0), bc.off_to_pos(0), bc.get_ins_off(2), list(m.get_instructions_idx())
+                bc.add_inote("x", 0), bc.seek(0), m.add_note("x"), m.reload()
+                bc = m.get_code().get_bc()
             code = b"\x00\x00" * nops + b.code_bytes[(GEN_CLASS, f"m{src}", "V", ())]
             new = list(dex.LinearSweepAlgorithm.get_instructions(bc.CM, len(code) // 2, code, 0))
-            m.set_instructions(new)                              # the public way to edit a method body
-            ma = analysis.MethodAnalysis(d, m)                   # analysed again, same EncodedMethod
-            self.one_method(d, dx, m, {}, fkeys, code, tries, dict(h, kind="hist", upto=k), ma=ma, xrefs=False)
+            if route == "sib" and sib is None:
+                route = "dcode"
+            if route == "em":
+                m.set_instructions(new)
+            elif route == "dcode":
+                bc.set_instructions(new)
+            elif route == "sib":
+                sib.set_instructions(new)
+            else:
+                bc.set_insn(code)
+                bc.set_instructions(None)
+            self.dist["route_" + route] = self.dist.get("route_" + route, 0) + 1
+            dx2 = analysis.Analysis(d)                           # the same DEX object analysed again
+            dx2.create_xref()
+            self.one_method(d, dx2, m, xref_index(dx2), fkeys, code, tries, dict(h, kind="hist", upto=k))
             self.dist["history_steps"] = self.dist.get("history_steps", 0) + 1
         self.dist["histories"] = self.dist.get("histories", 0) + 1
 
